@@ -1697,6 +1697,11 @@ class Engine:
         for label, c in self.run_spec(ctx, lambda: contract.clauses("pre", ns)):
             ctx.oblige("%s/pre#%s#%s" % (short(ctx.func), callee, label), lift_bool(c), kind="pre")
             ctx.assume(lift_bool(c))
+        if not finfo.name == "__init__" and isinstance(nsd.get("self"), Obj) and nsd["self"].fields is not None \
+                and self._is_mutable(nsd["self"].cls) and finfo.cls is not None:
+            # the callee assumes the class invariant of its (mutable) receiver: it must hold at the call
+            for label, inv in self.class_invariants(ctx, nsd["self"]):
+                ctx.oblige("%s/pre#%s#inv.%s" % (short(ctx.func), callee, label), lift_bool(inv), kind="pre")
         dec = getattr(contract.impl, "decreases", None)
         if dec is not None and contract.qualname == ctx.func.split("[")[0].split("<")[0]:
             # recursion through the function's own contract: the measure must strictly decrease and stay >= 0
